@@ -244,20 +244,43 @@ func scenarioWalk(fn *ssa.Function, cond func(v ssa.Value) (bool, bool), step fu
 // scenarioWalkFrom is scenarioWalk starting at block b.
 func scenarioWalkFrom(b *ssa.BasicBlock, cond func(v ssa.Value) (bool, bool), step func(in ssa.Instruction) (ev *walkEvent, stop bool, err string)) ([]walkEvent, string) {
 	var evs []walkEvent
+	var prev *ssa.BasicBlock
 	for n := 0; n < 300; n++ {
+		cur := b
 		for _, in := range b.Instrs {
 			switch x := in.(type) {
 			case *ssa.If:
-				t, ok := cond(x.Cond)
+				cv := x.Cond
+				// a flag merged at this join (the result variable of an inlined helper): the value it has
+				// on the way we came
+				for depth := 0; depth < 4; depth++ {
+					phi, isPhi := cv.(*ssa.Phi)
+					if !isPhi || phi.Block() != cur || prev == nil {
+						break
+					}
+					for i, pb := range cur.Preds {
+						if pb == prev {
+							cv = phi.Edges[i]
+						}
+					}
+				}
+				t, ok := false, false
+				if k, isC := ir.ConstBool(cv); isC {
+					t, ok = k, true
+				} else {
+					t, ok = cond(cv)
+				}
 				if !ok {
 					return evs, fmt.Sprintf("condition `%s` cannot be evaluated for this scenario", x.Cond)
 				}
+				prev = cur
 				if t {
 					b = b.Succs[0]
 				} else {
 					b = b.Succs[1]
 				}
 			case *ssa.Jump:
+				prev = cur
 				b = b.Succs[0]
 			case *ssa.Return:
 				evs = append(evs, walkEvent{what: "return"})
@@ -361,7 +384,23 @@ func flow2(c *Ctx) {
 				return nil, false, ""
 			}
 			if _, f, isF := ir.FieldLoad(call.Call.Value); isF && f == "Exiter" {
-				return &walkEvent{"Exiter", call.Call.Args}, false, ""
+				// the code handed up through a result variable: the one value it can have at this call
+				args := append([]ssa.Value{}, call.Call.Args...)
+				for i, a := range args {
+					for depth := 0; depth < 3; depth++ {
+						inner := stripConv(a)
+						if _, isPhi := inner.(*ssa.Phi); !isPhi {
+							break
+						}
+						vs := ir.PhiValuesAt(inner, call.Block())
+						if len(vs) != 1 {
+							break
+						}
+						a = vs[0]
+					}
+					args[i] = a
+				}
+				return &walkEvent{"Exiter", args}, false, ""
 			}
 			return nil, false, "unexpected dynamic call"
 		}
